@@ -247,29 +247,40 @@ theorem targetAt_single (D : Def) (hs : D.single = true) (c s s' : Nat) :
     match dsts, hs with
     | [[u]], _ => rfl
 
-/-- two definitions touch: same code length, ranges overlapping or adjacent -/
-def touchesB (d e : Def) : Bool :=
-  decide (d.len = e.len) && decide (d.lo ≤ e.hi + 1) && decide (e.lo ≤ d.hi + 1)
+/-- two definitions overlap: same code length, a common code -/
+def overlapsB (d e : Def) : Bool :=
+  decide (d.len = e.len) && decide (d.lo ≤ e.hi) && decide (e.lo ≤ d.hi)
 
-def sepPair (d e : Def) : Bool := (d.single && e.single) || !touchesB d e
+/-- two definitions are adjacent: same code length, one ends right before the other starts -/
+def adjacentB (d e : Def) : Bool :=
+  decide (d.len = e.len) && (decide (d.hi + 1 = e.lo) || decide (e.hi + 1 = d.lo))
 
-/-- **the guard** (decidable, on the input): every definition that is not single-unit touches
-no other definition of the CMap. -/
+/-- a pair of definitions is harmless: both single-unit, or they do not overlap and — if adjacent —
+are stored with different targets (so the interval map cannot coalesce them) -/
+def sepPair (d e : Def) : Bool :=
+  (d.single && e.single) || (!overlapsB d e && (!adjacentB d e || decide (storedOf d ≠ storedOf e)))
+
+/-- **the guard** (decidable, on the input): every definition that is not single-unit overlaps no
+other definition and is not adjacent to a definition with an equal multi-unit / array target.
+(Single-unit definitions may overlap each other freely and may be adjacent to anything.) -/
 def separated : List Def → Bool
   | [] => true
   | d :: ds => ds.all (sepPair d) && separated ds
 
 theorem sepPair_iff {d e : Def} : sepPair d e = true ↔
-    (d.single = true ∧ e.single = true) ∨ ¬ (d.len = e.len ∧ d.lo ≤ e.hi + 1 ∧ e.lo ≤ d.hi + 1) := by
-  unfold sepPair touchesB
+    (d.single = true ∧ e.single = true) ∨
+    (¬ (d.len = e.len ∧ d.lo ≤ e.hi ∧ e.lo ≤ d.hi) ∧
+     ((d.len = e.len ∧ (d.hi + 1 = e.lo ∨ e.hi + 1 = d.lo)) → storedOf d ≠ storedOf e)) := by
+  unfold sepPair overlapsB adjacentB
   by_cases h1 : d.single = true <;> by_cases h2 : e.single = true <;> by_cases a : d.len = e.len <;>
-    by_cases b : d.lo ≤ e.hi + 1 <;> by_cases c : e.lo ≤ d.hi + 1 <;> simp [h1, h2, a, b, c]
+    by_cases b : d.lo ≤ e.hi <;> by_cases c : e.lo ≤ d.hi <;> by_cases f : d.hi + 1 = e.lo <;>
+    by_cases g : e.hi + 1 = d.lo <;> by_cases k : storedOf d = storedOf e <;> simp [h1, h2, a, b, c, f, g, k]
 
 theorem sepPair_symm {d e : Def} (h : sepPair d e = true) : sepPair e d = true := by
   rw [sepPair_iff] at h ⊢
-  rcases h with h | h
+  rcases h with h | ⟨h, k⟩
   · exact Or.inl ⟨h.2, h.1⟩
-  · exact Or.inr (fun ⟨a, b, c⟩ => h ⟨a.symm, c, b⟩)
+  · refine Or.inr ⟨fun ⟨a, b, c⟩ => h ⟨a.symm, c, b⟩, fun ⟨a, b⟩ e => k ⟨a.symm, b.symm⟩ e.symm⟩
 
 theorem separated_mem {ds : List Def} (h : separated ds = true) {a b : Def} (ha : a ∈ ds) (hb : b ∈ ds) :
     a = b ∨ sepPair a b = true := by
@@ -330,18 +341,20 @@ theorem cmap_get_partial (ss : List Section)
     by_cases hs : D.single = true
     · exact targetAt_single D hs c _ _
     · -- a non-single definition touches nothing: its stored neighbourhood is exactly its own range
-      have hothers : ∀ x D', lastCovering (defsOf ss) x l = some D' → D'.lo ≤ D.hi + 1 → D.lo ≤ D'.hi + 1 → D' = D := by
-        intro x D' hx h1 h2
+      have hothers : ∀ x D', lastCovering (defsOf ss) x l = some D' → D' = D ∨
+          (¬ (D'.lo ≤ D.hi ∧ D.lo ≤ D'.hi) ∧ ((D'.hi + 1 = D.lo ∨ D.hi + 1 = D'.lo) → storedOf D' ≠ storedOf D)) := by
+        intro x D' hx
         have hD' := lastCoveringFrom_some hx
         simp only [reduceCtorEq, or_false] at hD'
         obtain ⟨hmem', hcov'⟩ := hD'
         obtain ⟨hlen', _, _⟩ := covers_iff.mp hcov'
+        have hll : D'.len = D.len := hlen'.trans hlen.symm
         rcases separated_mem hsep hmem' hmem with e | e
-        · exact e
+        · exact Or.inl e
         · rw [sepPair_iff] at e
-          rcases e with e | e
+          rcases e with e | ⟨e1, e2⟩
           · exact absurd e.2 hs
-          · exact absurd ⟨hlen'.trans hlen.symm, h1, h2⟩ e
+          · exact Or.inr ⟨fun ⟨p, q⟩ => e1 ⟨hll, p, q⟩, fun p => e2 ⟨hll, p⟩⟩
       have hin : ∀ x, D.lo ≤ x → x ≤ D.lo + (c - D.lo) → storedAt (defsOf ss) l x = some (storedOf D) := by
         intro x hx1 hx2
         have hcx : D.covers x l = true := covers_iff.mpr ⟨hlen, hx1, by omega⟩
@@ -353,7 +366,9 @@ theorem cmap_get_partial (ss : List Section)
           have hD' := lastCoveringFrom_some hx
           simp only [reduceCtorEq, or_false] at hD'
           obtain ⟨_, h1, h2⟩ := covers_iff.mp hD'.2
-          rw [hothers x D' hx (by omega) (by omega)]; rfl
+          rcases hothers x D' hx with e | ⟨e, _⟩
+          · rw [e]; rfl
+          · exact absurd ⟨by omega, by omega⟩ e
       have hbelow : 0 < D.lo → storedAt (defsOf ss) l (D.lo - 1) ≠ some (storedOf D) := by
         intro hpos
         unfold storedAt
@@ -363,26 +378,34 @@ theorem cmap_get_partial (ss : List Section)
           have hD' := lastCoveringFrom_some hx
           simp only [reduceCtorEq, or_false] at hD'
           obtain ⟨_, h1, h2⟩ := covers_iff.mp hD'.2
-          have e := hothers _ D' hx (by omega) (by omega)
-          subst e
-          omega
+          rcases hothers _ D' hx with e | ⟨e1, e2⟩
+          · subst e; omega
+          · have hadj : D'.hi + 1 = D.lo := by
+              by_cases hh : D'.hi + 1 = D.lo
+              · exact hh
+              · exact absurd ⟨by omega, by omega⟩ e1
+            have := e2 (Or.inl hadj)
+            simp only [Option.map_some, ne_eq, Option.some.injEq]
+            exact this
       have hcs : c = D.lo + (c - D.lo) := by omega
       have := reachDown_eq (storedAt (defsOf ss) l) (storedOf D) D.lo (c - D.lo) hin hbelow
       rw [← hcs] at this
       rw [this]
 
-/-- non-vacuity of `cmap_get_partial`: ligature, incrementing multi-unit range, array with a
-surrogate pair, and overlapping single-unit definitions next to them -/
+/-- non-vacuity of `cmap_get_partial`: ligatures adjacent to single-unit entries and to a different
+ligature, an incrementing multi-unit range with an adjacent ligature, an array with a surrogate pair,
+and overlapping single-unit definitions -/
 example :
     let ss : List Section :=
-      [.bfChar [((0x01, 1), [0x66, 0x69]), ((0x03, 1), [0x66, 0x6c])],
+      [.bfChar [((0x01, 1), [0x66, 0x69]), ((0x02, 1), [0x41]), ((0x03, 1), [0x66, 0x6c]), ((0x04, 1), [0x66, 0x69]),
+                ((0x14, 1), [0x66, 0x66])],
        .bfRange [((0x10, 0x13, 1), [[0x41, 0x30]]), ((0x20, 0x21, 1), [[0xD83D, 0xDE00], [0x263a]]),
                  ((0x30, 0x7e, 1), [[0x30]]), ((0x41, 0x5a, 1), [[0x61]])]]
     (∀ d ∈ defsOf ss, d.wf) ∧ separated (defsOf ss) = true := by
   refine ⟨?_, by decide⟩
   intro d hd
   simp [defsOf, defsOfChars, defsOfRanges] at hd
-  rcases hd with h | h | h | h | h | h <;> subst h <;> simp [Def.wf]
+  rcases hd with h | h | h | h | h | h | h | h | h <;> subst h <;> simp [Def.wf]
 
 /-! ### the full statement is false: concrete counter-witnesses (each replayed on the real code) -/
 
